@@ -165,13 +165,7 @@ class Node(object):
         """
         ind = [i for i in self.interrupted_individuals][0]
         if ind.is_blocked:
-            node_blocked_to = self.simulation.nodes[ind.destination]
-            ind.destination = False
-            node_blocked_to.blocked_queue.remove((self.id_number, ind.id_number))
-            node_blocked_to.len_blocked_queue -= 1
-            self.simulation.statetracker.change_state_release(self, node_blocked_to, ind, True)
-            ind.is_blocked = False
-            self.simulation.statetracker.change_state_accept(self, ind)
+            self.unblock_in_place(ind)
         self.attach_server(srvr, ind)
         self.give_service_time_after_preemption(ind)
         ind.service_start_date = self.now
@@ -786,6 +780,10 @@ class Node(object):
         self.simulation.statetracker.change_state_release(self, node_blocked_to, individual, True)
         individual.is_blocked = False
         self.simulation.statetracker.change_state_accept(self, individual)
+        individual.previous_class = individual.customer_class
+        if individual.prev_priority_class != individual.priority_class:
+            self.change_priority_queue(individual)
+            individual.prev_priority_class = individual.priority_class
 
     def update_next_end_service_without_server(self):
         """
